@@ -1,5 +1,6 @@
 import MimicProofs.Auth
 import MimicProofs.UtilsCode
+import MimicProofs.ParsersCode
 import Mimic.Extracted.Auth
 /-!
 # C02 — A password proof is accepted iff it fits this connection's nonce and secret
@@ -149,6 +150,27 @@ theorem clear_accepts_iff_check (acc : List (String × Bytes)) (i : Info) :
     clearDecide acc i = .success i.username ↔
       acc.any (fun up => up.1 == i.username && up.2 == (readNul i.data).1) = true := by
   unfold clearDecide; split <;> simp_all
+
+/-- the password the clear-password plugin hands to `check` is what **the translated `read_str_null`** (`types.py`,
+    `Mimic.Extracted.ParsersCode`) reads from the transmitted bytes: everything before the first NUL, or everything when
+    the client sent no terminator (end of input terminates the string) — never one byte more or less -/
+theorem clear_password_decoding_is_code (data : Bytes) :
+    Mimic.Extracted.ParsersCode.read_str_null data = some (readNul data) :=
+  MimicProofs.ParsersCode.read_str_null_eq data
+
+theorem clear_password_unterminated (data : Bytes) (h : ∀ b ∈ data, b ≠ 0) : (readNul data).1 = data := by
+  induction data with
+  | nil => rfl
+  | cons b rest ih =>
+    have hb : b ≠ 0 := h b (List.mem_cons_self ..)
+    simp [readNul, hb, ih (fun x hx => h x (List.mem_cons_of_mem _ hx))]
+
+theorem clear_password_terminated (pw rest : Bytes) (h : ∀ b ∈ pw, b ≠ 0) : (readNul (pw ++ 0 :: rest)).1 = pw := by
+  induction pw with
+  | nil => simp [readNul]
+  | cons b more ih =>
+    have hb : b ≠ 0 := h b (List.mem_cons_self ..)
+    simp [readNul, hb, ih (fun x hx => h x (List.mem_cons_of_mem _ hx))]
 
 /-- **The no-login plugin never accepts**, on any route and whatever the client sends -/
 theorem nologin_never_accepts (α : Bytes) (p : Plugin) (hp : p.kind = .nologin) (info : Option Info) (draws : List Nat)
